@@ -40,6 +40,8 @@ PLAN = {
     "C13": [
         dict(test="TestC13R", quick=(120, 10), thorough=(1500, 8), race=True, timeout=1500, timeout_thorough=7200),
         dict(test="TestC13S", quick=(2000, 6), thorough=(40000, 8), timeout_thorough=7200),
+        # views at the top of the 64-bit range (valid NEW_VIEWs into them, then timeouts): no wrap-around
+        dict(test="TestC13N", quick=(3000, 4), thorough=(100000, 8)),
     ],
     "C14": [
         dict(test="TestC14R", quick=(150, 16), thorough=(1500, 16), race=True, timeout=1500, timeout_thorough=7200),
